@@ -57,7 +57,7 @@ Qed.
 
 Lemma xb_set_role xs r c s : xb (x_set_role xs r c s) = fst (set_role (xb xs) r c).
 Proof.
-  unfold x_set_role, x_edit_role, set_role. cbn [xb x_rebuild_role].
+  unfold x_set_role, x_edit_role, x_edit_role_with, set_role. cbn [xb x_rebuild_role].
   rewrite !roles_after_rebuild. destruct (rebuild_role (xb xs) r) as [st1 orr] eqn:E. cbn [fst snd].
   assert (Hc : compute_chans st1 (PR r) [] = compute_chans (xb xs) (PR r) []).
   { unfold rebuild_role in E. destruct (roles (xb xs) r) as [rr|]; [destruct (r_del rr)|]; inversion E; reflexivity. }
@@ -740,7 +740,7 @@ Proof.
   intros I Hs Hvalid Ib'. pose proof (xi_base xs I) as Ib.
   set (xs' := x_edit_role xs r chans s) in *.
   assert (Hclk : xclock xs <= xclock xs' /\ xclock xs' <= s).
-  { subst xs'. unfold x_edit_role. cbn [xclock]. destruct (_ || _); lia. }
+  { subst xs'. unfold x_edit_role, x_edit_role_with. cbn [xclock]. destruct (_ || _); lia. }
   assert (Fc : forall p x, tcompute_chans xs' p x = tcompute_chans xs p x) by (intros; apply tcompute_chans_frame; reflexivity).
   assert (Fr : forall p x, tcompute_roles xs' p x = tcompute_roles xs p x) by (intros; apply tcompute_roles_frame; reflexivity).
   constructor.
@@ -757,15 +757,15 @@ Proof.
     split; [apply (gc_ok_mono (xclock xs)); [apply Hclk | exact Gr]|]. split; assumption.
   - intros r' rr' Er'. rewrite !Fc.
     assert (Exr : xr xs' r' = if r' =? r then xr xs' r else xr xs r').
-    { subst xs'. unfold x_edit_role. cbn [xr]. unfold upd. destruct (r' =? r) eqn:E; [rewrite N.eqb_refl|]; reflexivity. }
+    { subst xs'. unfold x_edit_role, x_edit_role_with. cbn [xr]. unfold upd. destruct (r' =? r) eqn:E; [rewrite N.eqb_refl|]; reflexivity. }
     assert (Ers : roles (xb xs') r' = if r' =? r then roles (xb xs') r else roles (xb xs) r').
-    { subst xs'. unfold x_edit_role. cbn [xb set_roles roles]. unfold upd. destruct (r' =? r) eqn:E; [rewrite N.eqb_refl|]; reflexivity. }
+    { subst xs'. unfold x_edit_role, x_edit_role_with. cbn [xb set_roles roles]. unfold upd. destruct (r' =? r) eqn:E; [rewrite N.eqb_refl|]; reflexivity. }
     rewrite Ers in Er'. rewrite Exr. destruct (r' =? r) eqn:Err.
     + apply N.eqb_eq in Err. subst r'. clear Exr Ers.
-      subst xs'. unfold x_edit_role in *. cbn [xb xr xclock set_roles roles] in *. rewrite upd_same in Er'. rewrite upd_same.
+      subst xs'. unfold x_edit_role, x_edit_role_with in *. cbn [xb xr xclock set_roles roles] in *. rewrite upd_same in Er'. rewrite upd_same.
       inversion Er' as [Err]. clear Er'.
       set (live_ := match roles (xb xs) r with Some rr => negb (r_del rr) | None => false end) in *.
-      set (kept := match roles (xb xs) r with Some rr => if r_del rr && xdef xs then g_hist (xr xs r) else [] | None => [] end) in *.
+      set (kept := match roles (xb xs) r with Some rr => if r_del rr && (xdef xs || recreate_keeps_named_history) then g_hist (xr xs r) else [] | None => [] end) in *.
       set (fresh := mkR false [] (Some (compute_chans (xb xs) (PR r) []))) in *.
       set (rr := match roles (xb xs) r with Some rr => if r_del rr then fresh else rr | None => fresh end) in *.
       set (g0 := if live_ then xr xs r else mkG [] (tcompute_chans xs (PR r) []) 0 kept) in *.
@@ -792,7 +792,7 @@ Proof.
           - discriminate. }
         subst live_ kept rr g0 clock1. destruct (roles (xb xs) r) as [rr0|] eqn:Er.
         - destruct (xi_roles xs I r rr0 Er) as [H1 [Hh Hg]]. destruct (r_del rr0) eqn:Ed; cbn [negb andb].
-          + apply Hfresh. destruct (xdef xs); [apply (hist_le_mono _ (xclock xs)); [lia | exact Hh] | intros e []].
+          + apply Hfresh. destruct (xdef xs || recreate_keeps_named_history); [apply (hist_le_mono _ (xclock xs)); [lia | exact Hh] | intros e []].
           + destruct (Hg eq_refl) as [Gc Sc]. pose proof (Hvalid rr0 eq_refl Ed) as V.
             destruct (r_ch rr0) as [l|] eqn:El; [|congruence].
             split; [lia|]. split; [lia|]. split; [exact Ed|]. split; [exists l; split; [reflexivity | exact Gc]|].
